@@ -25,6 +25,18 @@ Definition ser_string (s : bytes) : bytes :=
 
 Definition E_UNIMPL : N := 19.
 
+(* Primitive::serialize, Number arm.  [exact] = sign? digits ('.' digits)? is the exact decimal expansion of the f32;
+   n.fract() == 0.0 && n.abs() < 2^31  →  `*n as i64` printed; otherwise `{}` (oracle text [short]) plus "." when it has none *)
+Definition all_zero (l : bytes) : bool := forallb (fun b => b =? 48) l.
+Definition ser_num (exact short : bytes) : bytes :=
+  let neg := match exact with c :: _ => c =? 45 | [] => false end in
+  let body := if neg then tl exact else exact in
+  let '(ip, fp) := match split_dot body with Some (a, b) => (a, b) | None => (body, []) end in
+  let iv := N_of_dec ip in
+  if all_zero fp && (iv <? 2147483648) then
+    (if neg && negb (iv =? 0) then [45] else []) ++ dec_of_N iv
+  else short ++ (if existsb (fun b => b =? 46) short then [] else [46]).
+
 Definition dict_open : bytes := [60; 60; 10].
 Definition dict_close : bytes := [62; 62; 10].
 Definition stream_open : bytes := [115; 116; 114; 101; 97; 109; 10].
@@ -48,6 +60,7 @@ Fixpoint ser (v : prim) : res bytes :=
   | PNull => Ok [110; 117; 108; 108]
   | PInt z => Ok (dec_of_Z z)
   | PReal t => Ok t
+  | PNum e t => Ok (ser_num e t)
   | PBool true => Ok [116; 114; 117; 101]
   | PBool false => Ok [102; 97; 108; 115; 101]
   | PStr s => Ok (ser_string s)
